@@ -443,6 +443,9 @@ static void report_san(const char *err, int status)
         for (const char *q = b; q < p; q++) if (*q == '/') slash = q + 1;
         size_t n = strcspn(slash, ":");
         snprintf(where, sizeof(where), "%.*s", (int)(n < 100 ? n : 100), slash);
+    } else if (WIFSIGNALED(status) && WTERMSIG(status) == SIGALRM) {
+        strcpy(kind, "hang");
+        snprintf(msg, sizeof(msg), "execution did not terminate within the harness alarm");
     } else
         snprintf(msg, sizeof(msg), "status %d", status);
     for (char *q = msg; *q; q++)
@@ -490,11 +493,22 @@ int main(int argc, char **argv)
             /* tight buffers: no prepend/append, alignment 1 */
             ubuf_mgr = ubuf_block_mem_mgr_alloc(0, 0, umem_mgr, 0, 0, 1, 0);
             assert(ubuf_mgr != NULL);
+            /* an execution of the code under test that does not terminate
+             * (e.g. a flush loop that makes no progress) must become an
+             * event, not block the parent's read() until the check's
+             * time-out: every execution runs under an alarm whose default
+             * action kills the child; the parent reports kind "hang" */
+            unsigned alarm_s = 20;
+            if (getenv("REPLAY_ALARM_S") != NULL && atoi(getenv("REPLAY_ALARM_S")) > 0)
+                alarm_s = atoi(getenv("REPLAY_ALARM_S"));
             for (long i = start; i < nlines; i++) {
-                if (!strncmp(lines[i], "exec", 4))
+                if (!strncmp(lines[i], "exec", 4)) {
                     *cur = i;
+                    alarm(alarm_s);
+                }
                 do_line(lines[i]);
             }
+            alarm(0);
             fflush(stdout);
             _exit(0);
         }
